@@ -513,6 +513,13 @@ def check_chunks(prog, rep):
     r0, r1 = it.args
     a0 = [dump(a) for a in r0.args] if isinstance(r0, ast.Call) else []
     a1 = [dump(a) for a in r1.args] if isinstance(r1, ast.Call) else []
+    if isinstance(r0, ast.Call) and isinstance(r1, ast.Call) and dump(r0.func) == "range" and dump(r1.func) == "range" and len(a0) == 3 and len(a1) == 3:
+        # chunk stops from a plain range: range(a+s, b(+1), s) yields multiples of the step only, so the stop of the last, partial chunk is never produced and zip drops
+        # that chunk - its rows of the (numpy.empty) result are never written
+        rep.violate("R6-chunks", construct, "chunk stops come from range(%s): when the number of rows is not a multiple of the step the last, partial chunk has no stop index, zip "
+                    "drops it and its rows are left uninitialised" % ", ".join(a1), where(f, lp), "srange(%s + %s, %s, %s) (stops that end at the bound itself)" % (a0[0], a0[2], a0[1], a0[2]),
+                    "range(%s)" % ", ".join(a1))
+        return
     if not (dump(r0.func) == "range" and dump(r1.func) == "srange" and len(a0) == 3 and len(a1) == 3):
         rep.unrec("R6-chunks", construct, "chunk generators not range(a,b,s) / srange(a+s,b,s)")
         return
@@ -569,7 +576,27 @@ def check_chunks(prog, rep):
                         where(f, lp), ref.show()[:140], val.show()[:140])
             good = False
         else:
-            rep.unrec("R6-chunks", construct, "chunk value not modelled")
+            # the scale factor may be read off an array instead of being passed in: the number of phases is axis 0 of the block array (and of the gathered chunk)
+            core = "haplomat[:, xmap[%s:%s, :], :, :]" % (rst, rsp)
+            axes = {0: "chromosome phases", 1: "crosses of the chunk", 2: "parents per cross", 3: "blocks", 4: "traits"}
+            verdict = None
+            for scale, axis in [("haplomat.shape[0]", 0), ("len(haplomat)", 0)] + [("%s.shape[%d]" % (core, k), k) for k in range(5)]:
+                try:
+                    alt = VN(prog, f).expr(ast.parse("%s * %s.max((0, 2)).sum(1)" % (scale, core), mode="eval").body)
+                except VNUnknown:
+                    continue
+                if val is not None and val == alt:
+                    verdict = (scale, axis)
+                    break
+            if verdict is not None and verdict[1] == 0:
+                pass
+            elif verdict is not None:
+                rep.violate("R6-chunks", construct, "the chunk value is scaled by the size of axis %d of the gathered block array (%s), not by the ploidy (number of phases, axis 0): "
+                            "right only when the two numbers coincide (two parents per cross in a diploid)" % (verdict[1], axes[verdict[1]]), where(f, lp),
+                            "ploidy * sum_blocks max_(phase,parent)", verdict[0][-12:])
+                good = False
+            else:
+                rep.unrec("R6-chunks", construct, "chunk value not modelled")
             good = False
     except VNUnknown as e:
         rep.unrec("R6-chunks", construct, str(e))
